@@ -7,3 +7,14 @@ package crypto
 //@   noframe
 //@   ensures ret2 == nil ==> ret0 != nil && ret1 != nil
 //@   ensures ret2 != nil ==> ret0 == nil && ret1 == nil
+
+// Key unmarshalling dispatches through a package-level map of function values
+// (PubKeyUnmarshallers); the functional contract is assumed, not verified.
+//@ func UnmarshalPublicKey
+//@   trusted dispatch through a mutable map of function values
+//@   ensures ret1 == nil ==> ret0 != nil && pubKeyPBok(data) && rawPub(ret0) == pubKeyFromPB(data)
+
+//@ func MarshalPublicKey
+//@   trusted calls interface methods Raw/Type of the key
+//@   ensures ret1 == nil ==> content(ret0) == pubKeyPB(rawPub(k))
+//@   fresh ret0
